@@ -145,6 +145,18 @@ fn one_spawn(v: &Value, files: &mut Files, out: &mut Vec<String>, idx: usize) {
     }
     let passed: Vec<Value> = files.opened.drain(..).collect();
 
+    // "repoint": between two launches of the same thread the parent re-points its own stdout / stderr at
+    // another file (dup2 onto fd 1 / 2, as a daemonising or log-rotating program does); the next child must
+    // inherit (and merge onto) the parent's CURRENT stream
+    if idx >= 1 {
+        if let Some(which) = v["repoint"].as_i64() {
+            let p = format!("{}/repoint_{}_{}", tmpd(), which, idx);
+            let f = fs::OpenOptions::new().create(true).write(true).truncate(true).open(&p).unwrap();
+            unsafe {
+                simk::raw::dup2(f.as_raw_fd(), which as i32);
+            }
+        }
+    }
     let pre = fd_table();
     let penv: Vec<String> = std::env::vars_os()
         .map(|(k, v)| {
@@ -283,6 +295,10 @@ fn run_one_inner(v: &Value, out: &mut Vec<String>) {
         sys_events(out);
         earlier.push(p.unwrap());
     }
+    let saved_std: Option<(i32, i32)> = v["repoint"].as_i64().map(|w| {
+        let keep = unsafe { simk::raw::fcntl(w as i32, libc::F_DUPFD_CLOEXEC, 100) };
+        (w as i32, keep)
+    });
     let repeat = v["repeat"].as_u64().unwrap_or(1) as usize;
     let in_thread = v["thread"].as_bool().unwrap_or(false);
     let body = |out: &mut Vec<String>| {
@@ -313,6 +329,12 @@ fn run_one_inner(v: &Value, out: &mut Vec<String>) {
         body(out);
     }
     let _ = &mut files;
+    if let Some((w, keep)) = saved_std {
+        unsafe {
+            simk::raw::dup2(keep, w);
+            simk::raw::close(keep);
+        }
+    }
     // tear down the earlier Popens: closing their stdin lets them exit
     for mut p in earlier {
         p.stdin.take();
